@@ -451,9 +451,10 @@ def r7_reader_structure(ctx):
     ctx.ob(rid, "uniqueness-over-legal-moves", ok,
            "" if ok else "pgn_to_bb compares the number of candidates with 1 before the candidates are known to be legal (no is_move_legal filter dominates the test, and the list comes from the pseudo-legal generator): a pinned like piece makes correct SAN 'ambiguous'",
            ctx.where(f), sample={"count_tests": len(count_tests), "legal_filters": len(legal_filters), "legal_generator": len(legal_gen), "pseudo_generator": len(pseudo_gen)})
-    REVIEWED = {"[discr,local]=1": "the text did not match the pattern / no component group: the text-level error is passed on",
-                "[call:Vec::len,cmp]else": "not exactly one legal candidate",
-                "[call:Vec::len,cmp]=0": "the unique legal candidate"}
+    REVIEWED = {"[discr,local]": "the text did not match the pattern / no component group: the text-level error is passed on",
+                "[call:Vec::len,cmp]": "not exactly one legal candidate / the unique legal candidate"}
+    ALLOWED = {"call:Vec::len", "call:Vec::is_empty", "call:slice::len", "call:slice::is_empty"}
+    STRUCTURAL = lambda a: a in ("cmp", "discr", "local") or a.startswith(("op:", "const:", "agg:"))
     seen = set()
     for b in sorted(cfg.reach):
         blk = f["blocks"][b]
@@ -463,20 +464,22 @@ def r7_reader_structure(ctx):
             d = s["dst"]
             if d is None or d["l"] != 0 or d["p"]:
                 continue
-            gs = []
+            gs, atoms = [], set()
             for (a, sb) in sorted(cfg.control_deps().get(b, ())):
                 sw = f["blocks"][a]["term"]
                 if sw["k"] == "switch":
                     dd = ex.operand(sw["discr"])
-                    taken = [v for v, tb in sw["targets"] if tb == sb]
-                    gs.append("[" + ",".join(sorted(_atoms(dd))) + "]" + ("=%s" % taken[0] if taken else "else"))
+                    atoms |= _atoms(dd)
+                    gs.append("[" + ",".join(sorted(_atoms(dd))) + "]")
             key = " & ".join(sorted(set(gs))) or "-"
             if key in seen:
                 continue
             seen.add(key)
-            ok = key in REVIEWED
+            # an answer decided by something other than the pattern match and the number of legal candidates
+            foreign = sorted(a for a in atoms if not STRUCTURAL(a) and a not in ALLOWED)
+            ok = key in REVIEWED or not foreign
             ctx.ob(rid, "result-site|%s" % key, ok,
-                   "" if ok else "pgn_to_bb assigns its result under `%s`, which is not one of its reviewed exits: an early answer that depends on the board (for example 'a capture needs a piece on the target square') rejects standard SAN such as an en-passant capture" % key,
+                   "" if ok else "pgn_to_bb assigns its result under a test of %s, which none of its reviewed exits uses: an early answer that depends on the board (for example 'a capture needs a piece on the target square') rejects standard SAN such as an en-passant capture" % foreign,
                    ctx.where(f, s["line"]), sample={"guard": key, "reason": REVIEWED.get(key, "")})
 
 
@@ -486,3 +489,74 @@ _run_before_r7 = run
 def run(ctx):
     _run_before_r7(ctx)
     r7_reader_structure(ctx)
+
+
+def r8_both_hints_honoured(ctx):
+    """a piece move written with a source file and a source rank (Qh4e1) names one piece: the filter must apply both"""
+    rid = "C14.R8"
+    ctx.rule(rid, "the SAN reader's piece-move filter accepts a candidate only on paths that looked at both source hints (file letter and rank digit): every accepting path tests from_file and from_rank (absent, or the source square against its mask)", floor=1)
+    from ..paths import returning_paths, NotLoopFree
+    prog = ctx.prog
+    closures = sorted(k for k in prog.children(BB + "pgn_to_bb") if prog.fns[k]["kind"] == "closure")
+
+    def mentions(tree, acc):
+        if not isinstance(tree, tuple):
+            return
+        if tree and tree[0] == "f" and tree[2] in ("from_file", "from_rank"):
+            acc.add(tree[2])
+        for x in tree:
+            if isinstance(x, tuple):
+                mentions(x, acc)
+    target = []
+    for ck in closures:
+        g = prog.fns[ck]
+        ex = Exprs(g)
+        seen = set()
+        for b in g["blocks"]:
+            for s in b["stmts"]:
+                mentions(ex.rvalue(s["rv"], None), seen)
+            t = b["term"]
+            if t["k"] == "call":
+                for a in t["args"]:
+                    mentions(ex.operand(a), seen)
+        if seen == {"from_file", "from_rank"}:
+            target.append(ck)
+    if len(target) != 1:
+        ctx.lost(rid, "the filter closure of pgn_to_bb that captures from_file and from_rank (found %d)" % len(target))
+        return
+    g = prog.fns[target[0]]
+    try:
+        pes = returning_paths(g, limit=300000)
+    except (NotLoopFree, OverflowError) as e:
+        ctx.lost(rid, "paths of the piece-move filter (%s)" % e)
+        return
+    bad = {}
+    n_acc = 0
+    for pe in pes:
+        r = pe.ret()
+        if r[0] == "c" and r[1] in (False, 0):
+            continue
+        n_acc += 1
+        seen = set()
+        for (d, c, b, ty) in pe.conds:
+            mentions(d, seen)
+        mentions(r, seen)
+        for h in ("from_file", "from_rank"):
+            if h not in seen:
+                bad[h] = bad.get(h, 0) + 1
+    if n_acc == 0:
+        ctx.lost(rid, "an accepting path of the piece-move filter")
+        return
+    for h in ("from_file", "from_rank"):
+        ok = h not in bad
+        ctx.ob(rid, "piece-filter|%s-looked-at" % h, ok,
+               "" if ok else "%d accepting path(s) of the piece-move filter never look at %s: a move is accepted although the %s written in the SAN does not match (with both hints given, Qh4e1, two pieces then match and the move is rejected as ambiguous - or the wrong one is played)" % (bad[h], h, "source rank" if h == "from_rank" else "source file"),
+               ctx.where(g), sample={"accepting_paths": n_acc, "paths": len(pes)})
+
+
+_run_before_r8 = run
+
+
+def run(ctx):
+    _run_before_r8(ctx)
+    r8_both_hints_honoured(ctx)
